@@ -942,6 +942,12 @@ class Analyzer:
                     self._fold[key] = None
             except Undecided:
                 self._fold[key] = None
+                # a table whose row values do not fold (records, calls): the constant keys of the module-level display bound once to the name
+                if isinstance(x, ast.Name) and self.mod.has_assign(x.id):
+                    d = self.mod.assign_value(x.id)
+                    stores = [n for n in ast.walk(self.mod.tree) if isinstance(n, ast.Name) and n.id == x.id and not isinstance(n.ctx, ast.Load)]
+                    if isinstance(d, ast.Dict) and d.keys and len(stores) == 1 and all(isinstance(k, ast.Constant) and isinstance(k.value, str) for k in d.keys):
+                        self._fold[key] = frozenset(k.value for k in d.keys)  # type: ignore[union-attr]
         return self._fold[key]
 
     def infer_kind(self, st: St) -> T.Any:
